@@ -53,6 +53,21 @@ pub fn run(seed: u64, n: usize, big: usize, out: &str) -> serde_json::Value {
         }
         cases.push(Case { kind: "large-ascii-with-high-byte".into(), bytes: b, settings: s });
     }
+    // more windows than any 16-bit counter holds (implementation only: 70,000 windows of 0 / 1 characters): steps large,
+    // product below the length
+    {
+        let body: Vec<u8> = (0..70_000usize).map(|i| if i % 7 == 6 { b' ' } else { b'a' + (i % 23) as u8 }).collect();
+        let mut s = default_settings();
+        s.steps = 70_000;
+        s.chunk_size = 0;
+        s.include_encodings = vec!["ascii".into()];
+        cases.push(Case { kind: "70000-windows".into(), bytes: body.clone(), settings: s.clone() });
+        let mut two = body.clone();
+        two.extend_from_slice(&body);
+        s.chunk_size = 1;
+        s.steps = 69_999;
+        cases.push(Case { kind: "70000-windows".into(), bytes: two, settings: s });
+    }
     for c in &cases {
         evals += 1;
         let wf = c.settings.steps >= 1 && c.settings.steps.checked_mul(c.settings.chunk_size).is_some();
